@@ -235,7 +235,7 @@ func TestVerifC47RoundTrip(t *testing.T) {
 
 func TestVerifC47Parse(t *testing.T) {
 	r := verifkit.NewReporter(t, "C47", "parse",
-		"Parse/NewHeader on len==cap slices of every length 0..20 (all 65,536 values of the first two bytes at each length >= 2, PRNG rest): shorter than 16 must be refused, 16..20 must decode per the reference and not depend on bytes past 16; parse->encode reproduces the input with reserved zeroed; distinct = distinct (length, first 16 bytes) inputs")
+		"Parse/NewHeader on len==cap slices (short ones also as the front of a larger stale buffer) of every length 0..20 (all 65,536 values of the first two bytes at each length >= 2, PRNG rest): shorter than 16 must be refused, 16..20 must decode per the reference and not depend on bytes past 16; parse->encode reproduces the input with reserved zeroed; distinct = distinct (length, first 16 bytes) inputs")
 	defer r.Done()
 	rng := verifkit.NewRand("C47parse")
 	reps := verifkit.Scale(1, 8)
@@ -298,6 +298,27 @@ func TestVerifC47Parse(t *testing.T) {
 				}
 				if length < Len {
 					r.Count("short_inputs", 1)
+					// the same short input as the front of a larger receive buffer (len < 16 <= cap) whose tail holds a
+					// complete stale header: length, not capacity, decides
+					big := make([]byte, 64)
+					for i := range big {
+						big[i] = byte(rng.UintN(256))
+					}
+					copy(big, orig)
+					hb := sentinel
+					var berr, bnerr error
+					var bnh *H
+					if r.Guard("C47/parse-panic", rec, func() {
+						berr = hb.Parse(big[:length])
+						bnh, bnerr = NewHeader(big[:length])
+					}) {
+						continue
+					}
+					r.Count("short_inputs_in_large_buffer", 1)
+					if berr == nil || bnerr == nil || bnh != nil {
+						r.Violation("C47/short-input-accepted", fmt.Sprintf("input of %d bytes at the front of a 64-byte buffer accepted (Parse err=%v, NewHeader err=%v hdr=%v)", length, berr, bnerr, bnh), rec())
+						continue
+					}
 					if err == nil || nerr == nil || nh != nil {
 						r.Violation("C47/short-input-accepted", fmt.Sprintf("input of %d bytes accepted (Parse err=%v, NewHeader err=%v hdr=%v)", length, err, nerr, nh), rec())
 						continue
